@@ -62,6 +62,13 @@ func init() {
 		"reflect.TypeOf":            reflectTypeOf,
 		"reflect.ValueOf":           reflectValueOf,
 		"(reflect.Value).Kind":      reflectKind,
+		"time.Now":                 timeNow,
+		"(time.Time).Add":          timeAdd,
+		"(time.Time).Sub":          timeSub,
+		"(time.Time).After":        func(fr *frame, a []Value) Value { return fr.th.eng.pool.Cmp(OpSlt, timeNS(a[1]), timeNS(a[0])) },
+		"(time.Time).Before":       func(fr *frame, a []Value) Value { return fr.th.eng.pool.Cmp(OpSlt, timeNS(a[0]), timeNS(a[1])) },
+		"(time.Time).IsZero":       func(fr *frame, a []Value) Value { return fr.th.eng.pool.Cmp(OpEq, timeNS(a[0]), fr.th.eng.pool.BV(0, 64)) },
+		"(time.Time).UnixNano":     func(fr *frame, a []Value) Value { return timeNS(a[0]) },
 		"runtime.Gosched":           func(fr *frame, a []Value) Value { fr.th.yield("Gosched"); return nil },
 		"time.Sleep":                func(fr *frame, a []Value) Value { fr.th.yield("Sleep"); return nil },
 	}
@@ -413,4 +420,25 @@ func reflectKind(fr *frame, a []Value) Value {
 		}
 	}
 	return p.BV(kind, 64)
+}
+
+// time.Time is modelled as {wall: 0, ext: nanoseconds of the harness clock, loc: nil}.
+func timeNS(v Value) *Term { return v.(Struct)[1].(*Term) }
+
+func timeNow(fr *frame, a []Value) Value {
+	e := fr.th.eng
+	t := e.zero(fr.fn.Signature.Results().At(0).Type()).(Struct)
+	t[1] = e.clock
+	return t
+}
+
+func timeAdd(fr *frame, a []Value) Value {
+	e := fr.th.eng
+	t := copyVal(a[0]).(Struct)
+	t[1] = e.pool.Bin(OpAdd, timeNS(a[0]), a[1].(*Term))
+	return t
+}
+
+func timeSub(fr *frame, a []Value) Value {
+	return fr.th.eng.pool.Bin(OpSub, timeNS(a[0]), timeNS(a[1]))
 }
